@@ -275,6 +275,102 @@ type c17Scenario struct {
 	adopted int
 	confirm int // connections with index < confirm are known to have been accepted
 	desc    []string
+	mu      sync.Mutex // guards evs, desc, uid, port: a watchdog may describe a scenario that is still running
+}
+
+func (sc *c17Scenario) addEv(e c17Ev) {
+	sc.mu.Lock()
+	sc.evs = append(sc.evs, e)
+	sc.mu.Unlock()
+}
+
+func (sc *c17Scenario) addDesc(s string) {
+	sc.mu.Lock()
+	sc.desc = append(sc.desc, s)
+	sc.mu.Unlock()
+}
+
+// ---- watchdogs ----
+//
+// Every scenario of the groups "tunnel" and "tunnel-e2e" runs under its own watchdog: a scenario
+// that does not finish in time is ABANDONED (its goroutines leak inside this process; they only
+// ever block or sleep) and reported through c.violate with the scenario as detail.  A running
+// scenario owns everything it touches (its own ctx, its own result record), so an abandoned one
+// is simply never looked at again.  After c17StuckLimit abandoned scenarios of one class the rest
+// of that class is skipped (the violation has been reported; the check stays short on any tree).
+
+const c17StuckLimit = 2
+
+// a scenario takes some tens of milliseconds (the one-second client kinds 1.2 s); the waits inside a
+// scenario are 2-4 s each
+const c17ScenarioLimit = 12 * time.Second
+
+// connectToTunnel gives up after tunnel_connect_timeout_ms (1 s); the grace period of the oracle is 2.5 s
+const c17SendActionLimit = 4 * time.Second
+
+var c17StuckMu sync.Mutex
+var c17StuckN = map[string]int{}
+
+func c17StuckCount(class string) int {
+	c17StuckMu.Lock()
+	defer c17StuckMu.Unlock()
+	return c17StuckN[class]
+}
+
+func c17StuckAdd(class string) {
+	c17StuckMu.Lock()
+	c17StuckN[class]++
+	c17StuckMu.Unlock()
+}
+
+// c17Guard runs f in its own goroutine and waits at most d for its result.
+func c17Guard[T any](d time.Duration, f func() T) (res T, finished bool) {
+	ch := make(chan T, 1)
+	go func() { ch <- f() }()
+	t := time.NewTimer(d)
+	defer t.Stop()
+	select {
+	case res = <-ch:
+		return res, true
+	case <-t.C:
+		return res, false
+	}
+}
+
+// c17Progress lets the watchdog say how far an abandoned scenario got.
+type c17Progress struct {
+	mu sync.Mutex
+	sc *c17Scenario
+	at string
+}
+
+func (p *c17Progress) set(sc *c17Scenario) {
+	p.mu.Lock()
+	p.sc = sc
+	p.mu.Unlock()
+}
+
+func (p *c17Progress) step(at string) {
+	if p == nil {
+		return
+	}
+	p.mu.Lock()
+	p.at = at
+	p.mu.Unlock()
+}
+
+func (p *c17Progress) String() string {
+	p.mu.Lock()
+	sc, at := p.sc, p.at
+	p.mu.Unlock()
+	s := ""
+	if at != "" {
+		s = "last step: " + at + " :: "
+	}
+	if sc == nil {
+		return s + "(the scenario had not started its server)"
+	}
+	return s + sc.describe()
 }
 
 func (sc *c17Scenario) drain() {
@@ -307,7 +403,7 @@ func (sc *c17Scenario) connect(kind int) *c17Peer {
 	p := c17Dial(sc.port, len(sc.peers))
 	sc.peers = append(sc.peers, p)
 	sc.kinds = append(sc.kinds, kind)
-	sc.evs = append(sc.evs, c17Ev{op: 'c'})
+	sc.addEv(c17Ev{op: 'c'})
 	return p
 }
 
@@ -336,7 +432,7 @@ func (sc *c17Scenario) write(p *c17Peer, b []byte) {
 	before := len(sc.log)
 	sc.drain()
 	p.write(b)
-	sc.evs = append(sc.evs, c17Ev{op: 'w', conn: p.idx, data: b})
+	sc.addEv(c17Ev{op: 'w', conn: p.idx, data: b})
 	switch {
 	case first:
 		p.waitResponse(3 * time.Second)
@@ -375,7 +471,7 @@ func (sc *c17Scenario) waitListenerClosed() {
 
 func (sc *c17Scenario) inband(b []byte) {
 	sc.srv.AddInband(b)
-	sc.evs = append(sc.evs, c17Ev{op: 'i', data: b})
+	sc.addEv(c17Ev{op: 'i', data: b})
 	sc.drain()
 }
 
@@ -386,10 +482,10 @@ func (sc *c17Scenario) act(tunnel bool, viaTunnel bool) string {
 	if viaTunnel && sc.adopted >= 0 {
 		p := sc.peers[sc.adopted]
 		p.write(line)
-		sc.evs = append(sc.evs, c17Ev{op: 'w', conn: p.idx, data: line})
+		sc.addEv(c17Ev{op: 'w', conn: p.idx, data: line})
 	} else {
 		sc.srv.AddInband(line)
-		sc.evs = append(sc.evs, c17Ev{op: 'i', data: line})
+		sc.addEv(c17Ev{op: 'i', data: line})
 	}
 	type res struct {
 		tun bool
@@ -407,9 +503,9 @@ func (sc *c17Scenario) act(tunnel bool, viaTunnel bool) string {
 	}
 	sc.log = append(sc.log, line...) // recvAction consumed exactly this line
 	if tunnel {
-		sc.evs = append(sc.evs, c17Ev{op: 'a'})
+		sc.addEv(c17Ev{op: 'a'})
 	} else {
-		sc.evs = append(sc.evs, c17Ev{op: 'A'})
+		sc.addEv(c17Ev{op: 'A'})
 	}
 	if r.err != nil {
 		return "E"
@@ -418,6 +514,8 @@ func (sc *c17Scenario) act(tunnel bool, viaTunnel bool) string {
 }
 
 func (sc *c17Scenario) describe() string {
+	sc.mu.Lock()
+	defer sc.mu.Unlock()
 	return fmt.Sprintf("uid=%s port=%d kinds=[%s] events=%s", sc.uid, sc.port, strings.Join(sc.desc, " "), c17EvString(sc.evs))
 }
 
@@ -479,7 +577,7 @@ func (sc *c17Scenario) finish() {
 }
 
 // one sequential scenario: emits a tunnel_run case
-func c17Sequential(c *ctx, seed int64, forced []int) *c17Line {
+func c17Sequential(c *ctx, seed int64, forced []int, prog *c17Progress) *c17Line {
 	rng := rand.New(rand.NewSource(seed))
 	uid := c17RandID(rng)
 	srv := trzsz.VerifNewTunnelServer(uid)
@@ -488,6 +586,7 @@ func c17Sequential(c *ctx, seed int64, forced []int) *c17Line {
 		return nil
 	}
 	sc := &c17Scenario{c: c, rng: rng, uid: uid, srv: srv, port: srv.Port, adopted: -1}
+	prog.set(sc)
 	defer sc.finish()
 	kinds := forced
 	if kinds == nil {
@@ -512,7 +611,7 @@ func c17Sequential(c *ctx, seed int64, forced []int) *c17Line {
 		t := &todo{kind: k}
 		t.steps = append(t.steps, c17Script(rng, k, uid, 0)...) // port filled in below
 		todos = append(todos, t)
-		sc.desc = append(sc.desc, c17KindName[k])
+		sc.addDesc(c17KindName[k])
 	}
 	for _, t := range todos { // scripts depend on the real port
 		t.steps = c17Script(rng, t.kind, uid, srv.Port)
@@ -550,7 +649,7 @@ func c17Sequential(c *ctx, seed int64, forced []int) *c17Line {
 					// only close connections whose handler is gone or will just see EOF; the adopted one stays
 					if t.peer.idx != sc.adopted {
 						t.peer.end()
-						sc.evs = append(sc.evs, c17Ev{op: 'x', conn: t.peer.idx})
+						sc.addEv(c17Ev{op: 'x', conn: t.peer.idx})
 						time.Sleep(300 * time.Microsecond)
 					}
 				}
@@ -650,7 +749,7 @@ func c17Sequential(c *ctx, seed int64, forced []int) *c17Line {
 }
 
 // one racy scenario: every connection in its own goroutine, random small delays; oracles only
-func c17Racy(c *ctx, seed int64) string {
+func c17Racy(c *ctx, seed int64, prog *c17Progress) string {
 	rng := rand.New(rand.NewSource(seed))
 	uid := c17RandID(rng)
 	srv := trzsz.VerifNewTunnelServer(uid)
@@ -658,6 +757,7 @@ func c17Racy(c *ctx, seed int64) string {
 		return "listen-failed"
 	}
 	sc := &c17Scenario{c: c, rng: rng, uid: uid, srv: srv, port: srv.Port, adopted: -1}
+	prog.set(sc)
 	defer sc.finish()
 	n := 2 + rng.Intn(7)
 	type plan struct {
@@ -676,7 +776,7 @@ func c17Racy(c *ctx, seed int64) string {
 		for j := 0; j <= len(plans[i].writes)+1; j++ {
 			plans[i].delays = append(plans[i].delays, time.Duration(rng.Intn(1500))*time.Microsecond)
 		}
-		sc.desc = append(sc.desc, c17KindName[k])
+		sc.addDesc(c17KindName[k])
 	}
 	sc.peers = make([]*c17Peer, n)
 	sc.kinds = make([]int, n)
@@ -840,11 +940,27 @@ func c17Client(cc *c17ClientCase, seed int64) {
 		return conn
 	}
 	t0 := time.Now()
+	desc := fmt.Sprintf("client kind=%s uid=%s port=%d seed=%d", c17CoName[cc.kind], cc.uid, cc.port, seed)
 	cl := trzsz.VerifNewTunnelClient(connector, cc.uid, cc.port)
-	errSend := cl.SendAction()
+	errSend, returned := c17Guard(c17SendActionLimit, func() error { return cl.SendAction() })
+	if !returned {
+		// sendAction waits for connectToTunnel (tunnelInitWG) which must give up after its one-second timer
+		// whatever the connector does: abandon the scenario (the goroutine leaks), free the sockets
+		c17StuckAdd("client:" + c17CoName[cc.kind])
+		cc.viol = append(cc.viol, [3]string{"tunnel:sendAction-stuck:" + c17CoName[cc.kind],
+			"sendAction never got past the wait for the tunnel (watchdog; connectToTunnel must give up one second after it started, whatever the connector does)",
+			fmt.Sprintf("%s: no return within %v", desc, c17SendActionLimit)})
+		mu.Lock()
+		fc := farConn
+		mu.Unlock()
+		if fc != nil {
+			fc.Close()
+		}
+		cc.note = "abandoned:client:" + c17CoName[cc.kind]
+		return
+	}
 	dur := time.Since(t0)
 	tc := cl.TunnelConnected()
-	desc := fmt.Sprintf("client kind=%s uid=%s port=%d", c17CoName[cc.kind], cc.uid, cc.port)
 	if dur > 2500*time.Millisecond {
 		cc.viol = append(cc.viol, [3]string{"tunnel:sendAction-stuck:" + c17CoName[cc.kind], "sendAction was held up by the tunnel for more than the grace period", fmt.Sprintf("%s took %v", desc, dur)})
 	}
@@ -987,17 +1103,42 @@ func genC17Tunnel(c *ctx) {
 	var mu sync.Mutex
 	sub := make([]*ctx, nSeq)
 	lines := make([]*c17Line, nSeq)
+	type seqRes struct {
+		lc *ctx
+		l  *c17Line
+	}
+	newCtx := func(seed int64) *ctx {
+		return &ctx{rng: rand.New(rand.NewSource(seed)), tier: c.tier, stats: map[string]int{}, seen: map[string]bool{}}
+	}
 	parallelDo(nSeq, 12, func(i int) {
-		// each scenario writes into a private ctx; merged below in order, so the case file is deterministic
-		lc := &ctx{rng: rand.New(rand.NewSource(seeds[i])), tier: c.tier, stats: map[string]int{}, seen: map[string]bool{}}
 		var f []int
 		if i < len(forced) {
 			f = forced[i]
 		}
-		l := c17Sequential(lc, seeds[i], f)
+		if c17StuckCount("sequential") >= c17StuckLimit {
+			lc := newCtx(seeds[i])
+			lc.count("skipped-after-stuck:sequential")
+			mu.Lock()
+			sub[i] = lc
+			mu.Unlock()
+			return
+		}
+		// each scenario writes into a private ctx; merged below in order, so the case file is deterministic
+		prog := &c17Progress{}
+		r, finished := c17Guard(c17ScenarioLimit, func() seqRes {
+			lc := newCtx(seeds[i])
+			return seqRes{lc, c17Sequential(lc, seeds[i], f, prog)}
+		})
+		if !finished {
+			c17StuckAdd("sequential")
+			r = seqRes{lc: newCtx(seeds[i])}
+			r.lc.count("abandoned:sequential")
+			r.lc.violate("tunnel:scenario-stuck:sequential", "a sequential scenario (one event at a time against the real acceptOnTunnel) did not finish (watchdog)",
+				fmt.Sprintf("no end within %v; seed=%d forced kinds=%v :: %s", c17ScenarioLimit, seeds[i], f, prog))
+		}
 		mu.Lock()
-		sub[i] = lc
-		lines[i] = l
+		sub[i] = r.lc
+		lines[i] = r.l
 		mu.Unlock()
 	})
 	for i, lc := range sub {
@@ -1015,10 +1156,31 @@ func genC17Tunnel(c *ctx) {
 	}
 	subr := make([]*ctx, nRacy)
 	notes := make([]string, nRacy)
+	type racyRes struct {
+		lc   *ctx
+		note string
+	}
 	parallelDo(nRacy, 12, func(i int) {
-		lc := &ctx{rng: rand.New(rand.NewSource(rs[i])), tier: c.tier, stats: map[string]int{}, seen: map[string]bool{}}
-		notes[i] = c17Racy(lc, rs[i])
-		subr[i] = lc
+		if c17StuckCount("racy") >= c17StuckLimit {
+			subr[i] = newCtx(rs[i])
+			subr[i].count("skipped-after-stuck:racy")
+			notes[i] = "racy skipped"
+			return
+		}
+		prog := &c17Progress{}
+		r, finished := c17Guard(c17ScenarioLimit, func() racyRes {
+			lc := newCtx(rs[i])
+			return racyRes{lc, c17Racy(lc, rs[i], prog)}
+		})
+		if !finished {
+			c17StuckAdd("racy")
+			r = racyRes{newCtx(rs[i]), "racy abandoned"}
+			r.lc.count("abandoned:racy")
+			r.lc.violate("tunnel:scenario-stuck:racy", "a racy scenario (all connections at once against the real acceptOnTunnel) did not finish (watchdog)",
+				fmt.Sprintf("no end within %v; seed=%d :: %s", c17ScenarioLimit, rs[i], prog))
+		}
+		notes[i] = r.note
+		subr[i] = r.lc
 	})
 	for i, lc := range subr {
 		c17Merge(c, lc)
@@ -1038,14 +1200,33 @@ func genC17Tunnel(c *ctx) {
 		cases[i] = &c17ClientCase{kind: k}
 		cs[i] = c.rng.Int63()
 	}
-	parallelDo(nCl, 16, func(i int) { c17Client(cases[i], cs[i]) })
+	parallelDo(nCl, 16, func(i int) {
+		kind := cases[i].kind
+		class := "client:" + c17CoName[kind]
+		if c17StuckCount(class) >= c17StuckLimit {
+			cases[i].note = "skipped-after-stuck:" + class
+			return
+		}
+		cc, finished := c17Guard(c17ScenarioLimit, func() *c17ClientCase {
+			cc := &c17ClientCase{kind: kind}
+			c17Client(cc, cs[i])
+			return cc
+		})
+		if !finished {
+			c17StuckAdd(class)
+			cc = &c17ClientCase{kind: kind, note: "abandoned:" + class}
+			cc.viol = append(cc.viol, [3]string{"tunnel:scenario-stuck:" + class, "a client scenario (real connectToTunnel + sendAction against a scripted far end) did not finish (watchdog)",
+				fmt.Sprintf("no end within %v; client kind=%s seed=%d", c17ScenarioLimit, c17CoName[kind], cs[i])})
+		}
+		cases[i] = cc
+	})
 	for _, cc := range cases {
+		for _, v := range cc.viol {
+			c.violate(v[0], v[1], v[2])
+		}
 		if cc.note != "" {
 			c.count(cc.note)
 			continue
-		}
-		for _, v := range cc.viol {
-			c.violate(v[0], v[1], v[2])
 		}
 		c.count("client:" + c17CoName[cc.kind])
 		c.emit(true, "tunnel_client", cc.result, cc.args...)
